@@ -122,8 +122,8 @@ class TraceVerdict:
     states: int = 0
 
 
-_RE_REJECT = re.compile(r'^<<"REJECT", (-?\d+), (<<.*>>)>>\s*$', re.M)
-_RE_SUMMARY = re.compile(r'^<<"SUMMARY", (\d+), (\d+), (\d+), (\d+)>>\s*$', re.M)
+_RE_REJECT = re.compile(r'^"REJECT\|(-?\d+)\|([^"]*)"\s*$', re.M)
+_RE_SUMMARY = re.compile(r'^"SUMMARY\|(\d+)\|(\d+)\|(\d+)\|(\d+)"\s*$', re.M)
 
 
 def _validate_one(module: str, cfg: str, trace_file: str, timeout: int, env: dict | None):
@@ -152,7 +152,7 @@ def _validate_one(module: str, cfg: str, trace_file: str, timeout: int, env: dic
         raise MachineryError(f"trace validation by {module}: not all lines consumed ({acc}+{rej} of {n}, diameter {diam})")
     rejects = []
     for m in _RE_REJECT.finditer(out):
-        clauses = re.findall(r'"([^"]*)"', m.group(2))
+        clauses = [c for c in m.group(2).split(",") if c]
         rejects.append((int(m.group(1)), clauses))
     if len(rejects) != rej:
         raise MachineryError(f"trace validation by {module}: {rej} rejections counted, {len(rejects)} parsed\n" + out[-2000:])
